@@ -365,6 +365,7 @@ func RunSession(s Session) mon.Result {
 	var hist []string
 	genAtCallStart := 0
 	straddleTimeoutSinceOK := false
+	curCollide := ""
 	// echoTailSharedRead: during the current call some reply began in the middle of a transport read
 	// whose first bytes were echoed client bytes (possible only without echo marks).
 	echoTailSharedRead := func() bool {
@@ -392,6 +393,9 @@ func RunSession(s Session) mon.Result {
 		about := strings.HasPrefix(key, "c08/reply-") || strings.HasPrefix(key, "c08/result-")
 		if about && !strings.Contains(key, "echo-tail-shares-read-with-reply") && echoTailSharedRead() {
 			key += "+echo-tail-shares-read-with-reply"
+		}
+		if about && curCollide != "" && !strings.Contains(key, "body-has-") {
+			key += "+body-has-" + curCollide + "-element"
 		}
 		if about && straddleTimeoutSinceOK && !strings.Contains(key, "after-straddle-timeout") {
 			// a reply that straddled its caller's deadline was abandoned since the last verified success
@@ -452,6 +456,7 @@ func RunSession(s Session) mon.Result {
 			to = shortTimeout
 		}
 		conn.Do(func() { h.cur = k; h.writesInCall = 0; genAtCallStart = conn.Generated() })
+		curCollide = call.Collide
 		start := time.Now()
 		var tailDone chan struct{}
 		if call.Plan == "straddle" {
@@ -503,6 +508,9 @@ func RunSession(s Session) mon.Result {
 		if call.Decoy != "" {
 			tagset["decoy="+call.Decoy] = true
 		}
+		if call.Collide != "" {
+			tagset["collide="+call.Collide] = true
+		}
 		desc := fmt.Sprintf("#%d %s plan=%s", k, call.Kind, call.Plan)
 		if rc.reqSeen > 0 {
 			desc = fmt.Sprintf("#%d id=%d %s plan=%s", k, rc.reqID, call.Kind, call.Plan)
@@ -523,6 +531,9 @@ func RunSession(s Session) mon.Result {
 		}
 		if call.Decoy != "" {
 			desc += " decoy=" + call.Decoy
+		}
+		if call.Collide != "" {
+			desc += " body-has-" + call.Collide
 		}
 
 		// --- what the server saw -------------------------------------------------------------
@@ -657,6 +668,9 @@ func RunSession(s Session) mon.Result {
 			if len(rc.sizes) > 1 {
 				obs["success_multi_chunk"]++
 			}
+			if call.Collide != "" {
+				obs["success_with_colliding_element_in_body"]++
+			}
 			if call.Decoy != "" {
 				obs["success_with_message_id_text_in_body"]++
 				if rc.cutInAttr {
@@ -688,12 +702,14 @@ func RunSession(s Session) mon.Result {
 				}
 				cause := fmt.Sprintf("%s:echo=%v:after-%s", s.Version, s.Echo, h.prevOutcome)
 				switch {
-				case echoTailSharedRead():
-					cause = fmt.Sprintf("%s:echo-tail-shares-read-with-reply:after-%s", s.Version, h.prevOutcome)
 				case rc.cutInAttr && call.Decoy != "":
 					cause = s.Version + ":chunk-boundary-inside-message-id-attribute+message-id-text-in-body"
 				case rc.cutInAttr:
 					cause = s.Version + ":chunk-boundary-inside-message-id-attribute"
+				case call.Collide != "":
+					cause = fmt.Sprintf("%s:body-has-%s-element", s.Version, call.Collide)
+				case echoTailSharedRead():
+					cause = fmt.Sprintf("%s:echo-tail-shares-read-with-reply:after-%s", s.Version, h.prevOutcome)
 				case call.Decoy != "":
 					cause = fmt.Sprintf("%s:echo=%v:message-id-text-in-body", s.Version, s.Echo)
 				}
@@ -883,7 +899,8 @@ func init() {
 			"a planned-now reply is sent either the moment the request is complete (before the echo of the trailing return) or after the call's last transport write (nothing follows the reply)",
 			"the server answers with message-id=\"N\" in double quotes, N the id of the request, and replies never precede the complete request",
 			"random reply bodies and request arguments contain none of: ']]>]]>', '#', '</rpc>', 'message-id', 'subscription-id' (checked by brute force by the generator); " +
-				"on purpose ~1/6 of the replies quote a message-id=\"N\" attribute as text inside the body (N a past id, the next id, a far id), always after the reply element's own attribute",
+				"on purpose 1/5 of the replies carry a data element named like a token the library scans for (hello, capability, session-id, subscription-id, subscription-result, rpc-error-count, ok) and " +
+				"~1/6 of the replies quote a message-id=\"N\" attribute as text inside the body (N a past id, the next id, a far id), always after the reply element's own attribute",
 			"an echoing transport echoes every client write verbatim and at once; replies interleave with the echo only between two client writes",
 			"a planned-now call that times out is a violation only if the complete reply had been delivered >= 1 s (net of observed scheduling stalls) before the 5 s deadline; otherwise inconclusive",
 			"late is logical: a held reply is released only after the harness observed the caller's timeout error (150 ms per-operation timeout)",
